@@ -174,11 +174,12 @@ theorem ptoFire_keeps (s : State) (env : Env) (now : Time) (nts : PN) (evs0 : Li
 
 theorem timeoutMain_keeps (s : State) (env : Env) (now : Time) (nts : PN) (evs0 : List Ev) (disc0 : List Frame) :
     Keeps (s.timeoutMain env now nts evs0 disc0).1 s := by
-  unfold State.timeoutMain
+  unfold State.timeoutMain State.timeoutMainG
   split
   · exact detectLostPackets_keeps _ _ _ _
   · split
-    · simp only []
+    · unfold State.antiDeadlockProbe
+      simp only []
       split
       · exact ⟨rfl, rfl, rfl, rfl, fun _ => Or.inr (Or.inl rfl)⟩
       · split
